@@ -465,6 +465,10 @@ func (root *Root) replaceArgVars(vars map[string]interface{}, v interface{}, at 
 			if val, err = it.CoerceIn(val); err != nil {
 				ea = append(ea, resWarnp(nil, "%s", err))
 			}
+		} else if ic, _ := at.(InCoercer); ic != nil { // an object literal for a type that is not an input object
+			if val, err = ic.CoerceIn(val); err != nil {
+				ea = append(ea, resWarnp(nil, "%s", err))
+			}
 		}
 	case []interface{}:
 		var mt Type
@@ -475,11 +479,24 @@ func (root *Root) replaceArgVars(vars map[string]interface{}, v interface{}, at 
 			tv[i], ea2 = root.replaceArgVars(vars, v, mt)
 			ea = append(ea, ea2...)
 		}
+		if mt == nil {
+			// Not declared as a plain list, let the declared type accept
+			// (a non-null list) or reject (anything else) the list.
+			if ic, _ := at.(InCoercer); ic != nil {
+				if val, err = ic.CoerceIn(val); err != nil {
+					ea = append(ea, resWarnp(nil, "%s", err))
+				}
+			}
+		}
 	case Symbol:
 		bt := BaseType(at)
 		if et, _ := bt.(*Enum); et != nil {
 			if _, has := et.values.dict[string(tv)]; !has {
 				ea = append(ea, resWarnp(nil, "%s is not a valid enum value in %s", tv, et.N))
+			}
+		} else if ic, _ := at.(InCoercer); ic != nil { // an enum symbol for a type that is not an enum
+			if val, err = ic.CoerceIn(val); err != nil {
+				ea = append(ea, resWarnp(nil, "%s", err))
 			}
 		}
 	default:
